@@ -970,7 +970,7 @@ func doCustom(sub string, c customCase) string {
 		b, _ := jsonMarshal(c.Regs)
 		rec.NT("custom\x00" + string(b) + "\x00" + c.Src + "\x00" + univ.Show(c.Input.X))
 	}
-	rec.Sample(map[string]any{"sub": sub, "regs": c.Regs, "src": c.Src, "input": univ.Show(c.Input.X), "outputs": o.outputs, "errored": o.errored, "callback_invocations": o.calls})
+	sample("custom", map[string]any{"sub": sub, "regs": c.Regs, "src": c.Src, "input": univ.Show(c.Input.X), "outputs": o.outputs, "errored": o.errored, "callback_invocations": o.calls})
 	return o.msg
 }
 
@@ -1069,8 +1069,8 @@ func runCustom(t *testing.T) {
 		if navfree {
 			rec.Excluded("C19/path-arg-navigation")
 		}
-		g := newCG(t, regs, pathy, navfree, rapid.IntRange(4, 22).Draw(t, "budget"))
-		src := g.expr(rapid.IntRange(1, 4).Draw(t, "depth"))
+		g := newCG(t, regs, pathy, navfree, rapid.IntRange(8, 30).Draw(t, "budget"))
+		src := g.expr(rapid.IntRange(1, 5).Draw(t, "depth"))
 		if g.ncalls == 0 {
 			src = "(" + src + ") | " + g.call(2)
 		}
